@@ -3,7 +3,7 @@ EXTENDS Select, Json
 CONSTANTS NST, NQ, TOLS, MAXS, EMIT
 \* station / query lattices: both sides of the 0 and 180 meridians, plus mid-ocean points (lon in half-degree units)
 \* (exactly 180 deg is left out: it reads +180 and -180 alike in the [-180,180] convention)
-SPOS == {<<2, 0>>, <<718, 0>>, <<358, 2>>, <<362, 2>>, <<100, 0>>, <<620, 2>>, <<0, 2>>, <<357, 0>>}
+SPOS == {<<2, 0>>, <<718, 0>>, <<358, 2>>, <<362, 2>>, <<100, 0>>, <<620, 2>>, <<0, 2>>, <<357, 0>>, <<360, 0>>}     \* the last one sits exactly on the 180 meridian
 QPOS == {<<0, 0>>, <<716, 1>>, <<361, 2>>, <<120, 0>>, <<600, 1>>, <<2, 0>>, <<359, 2>>,
          <<718, 0>>, <<362, 2>>}      \* the last two name a western-hemisphere station exactly (zero distance across conventions)
 VARIABLES st, qs, convD, convQ, tol, maxs
